@@ -1902,3 +1902,42 @@ func chanOrigins(v ssa.Value) (out []*ssa.MakeChan, ok bool) {
 	sort.Slice(out, func(i, j int) bool { return out[i].Pos() < out[j].Pos() })
 	return out, ok
 }
+
+// variadicElems: the elements of the slice literal a variadic call is given (f(a, b, c) builds [3]T{a, b, c}[:]), in
+// order; nil when the argument is not such a literal.
+func variadicElems(arg ssa.Value) []ssa.Value {
+	sl, ok := arg.(*ssa.Slice)
+	if !ok {
+		return nil
+	}
+	al, ok := sl.X.(*ssa.Alloc)
+	if !ok {
+		return nil
+	}
+	arr, ok := derefType(al.Type()).Underlying().(*types.Array)
+	if !ok {
+		return nil
+	}
+	out := make([]ssa.Value, arr.Len())
+	for _, r := range *al.Referrers() {
+		ia, ok := r.(*ssa.IndexAddr)
+		if !ok {
+			continue
+		}
+		k, ok := constInt(ia.Index)
+		if !ok || k < 0 || k >= int64(len(out)) {
+			continue
+		}
+		for _, r2 := range *ia.Referrers() {
+			if st, ok := r2.(*ssa.Store); ok && st.Addr == ssa.Value(ia) {
+				out[k] = st.Val
+			}
+		}
+	}
+	for _, v := range out {
+		if v == nil {
+			return nil
+		}
+	}
+	return out
+}
